@@ -19,7 +19,8 @@ TIE_ACCESS = [(f"TieAccess.{n}", "Relay.Tie.Access") for n in
               ["hasRequiredClaims_tie", "claimsCheck_tie", "claimsCheck_not_jwt", "claimsCheck_wrong_claims", "isRelayAdmin_tie", "hasStatsScope_tie",
                "admin_granted_iff", "stats_granted_iff", "coverage", "isRelayAdmin_err_isNone", "denyHandler_tie", "allowHandler_tie",
                "listDeniedHandler_tie", "listAllowedHandler_tie", "denyReq_status_as_translated",
-               "hasRequiredClaims_exp_nonNil", "mintedToken_as_model", "sessionHandler_refusal", "sessionHandler_grant"]]
+               "hasRequiredClaims_exp_nonNil", "mintedToken_as_model", "sessionHandler_refusal", "sessionHandler_grant",
+               "translated_deny_then_session_refused"]]
 # end to end: property theorems restated over histories of the translated code
 TIE_DENY = TIE_DENY + [(f"TieDenyE2E.{n}", "Relay.Tie.Deny") for n in
                        ["genStep_tie", "genRun_tie", "translated_register_refines_cell", "translated_latest_deny_wins", "translated_lists_disjoint"]]
